@@ -49,42 +49,39 @@ with suppress(ImportError):
                 return ("{0:" + val_format + "}").format(val)
 
         data = (h2.frequencies / h2.frequencies.max() * 255).astype(int)
+        # Axis 0 runs horizontally (one column per bin), axis 1 vertically (one row per bin, first bin at the bottom)
+        nx, ny = h2.shape
 
         # Colour map
         cmap = kwargs.pop("cmap", DEFAULT_CMAP)
         if cmap == "Greys":
             data = 255 - data
-            colorbar_range = range(h2.shape[1] + 1, -1, -1)
+            colorbar_range = range(nx + 1, -1, -1)
         elif cmap == "Greys_r":
-            colorbar_range = range(h2.shape[1] + 2)
+            colorbar_range = range(nx + 2)
         else:
             raise ValueError(
                 f"Unsupported colormap: {cmap}, select from: {SUPPORTED_CMAPS}"
             )
         colors = (65536 + 256 + 1) * data
 
-        print(
-            (value_format(h2.get_bin_right_edges(0)[-1]) + " →").rjust(
-                h2.shape[1] + 2, " "
-            )
-        )
-        print("+" + "-" * h2.shape[1] + "+")
-        for i in range(h2.shape[0] - 1, -1, -1):
+        print((value_format(h2.get_bin_right_edges(0)[-1]) + " →").rjust(nx + 2, " "))
+        print("+" + "-" * nx + "+")
+        for j in range(ny - 1, -1, -1):
             line_frags = [
-                xtermcolor.colorize("█", bg=0, rgb=colors[i, j])
-                for j in range(h2.shape[1])
+                xtermcolor.colorize("█", bg=0, rgb=colors[i, j]) for i in range(nx)
             ]
             line = "|" + "".join(line_frags) + "|"
-            if i == h2.shape[0] - 1:
+            if j == ny - 1:
                 line += value_format(h2.get_bin_right_edges(1)[-1]) + " ↑"
-            if i == 0:
+            if j == 0:
                 line += value_format(h2.get_bin_left_edges(1)[0]) + " ↓"
             print(line)
-        print("+" + "-" * h2.shape[1] + "+")
+        print("+" + "-" * nx + "+")
         print("←", value_format(h2.get_bin_left_edges(0)[0]))
         colorbar_frags = [
             xtermcolor.colorize(
-                "█", bg=0, rgb=(65536 + 256 + 1) * int(j * 255 / (h2.shape[1] + 2))
+                "█", bg=0, rgb=(65536 + 256 + 1) * int(j * 255 / (nx + 2))
             )
             for j in colorbar_range
         ]
@@ -92,7 +89,7 @@ with suppress(ImportError):
         print()
         print("↓", 0)
         print(colorbar)
-        print(str(h2.frequencies.max()).rjust(h2.shape[1], " "), "↑")
+        print(str(h2.frequencies.max()).rjust(nx, " "), "↑")
 
     types = types + ("map",)
     dims["map"] = [2]
